@@ -187,6 +187,12 @@ def parse_numbers(numbers, is_date=False):
     if any(char not in set('-01234567890.:,') for char in numbers):
         error("Could not translate '" + numbers + "' into numbers")
 
+    def to_float(word):
+        try:
+            return float(word)
+        except ValueError:
+            error("Could not translate '" + numbers + "' into numbers")
+
     values = list()
     commaLists = numbers.split(',')
     for commaList in commaLists:
@@ -195,17 +201,17 @@ def parse_numbers(numbers, is_date=False):
             if w == "":
                 verif.util.error("Could not parse '%s'. Empty value." % (numbers))
         if len(colonList) == 1:
-            values.append(float(colonList[0]))
+            values.append(to_float(colonList[0]))
         elif len(colonList) <= 3:
-            start = float(colonList[0])
+            start = to_float(colonList[0])
             step = 1
             if len(colonList) == 3:
-                step = float(colonList[1])
+                step = to_float(colonList[1])
             if step == 0:
                 verif.util.error("Could not parse '%s': Step cannot be 0." % (numbers))
             stepSign = step / abs(step)
             # arange does not include the end point:
-            end = float(colonList[-1]) + stepSign * 0.0001
+            end = to_float(colonList[-1]) + stepSign * 0.0001
             if is_date:
                 date = min(start, end)
                 curr = list()
